@@ -38,11 +38,14 @@ def unescapePlus (buf : Bytes) : Nat → Nat → Except Fault Bytes
       else unescapePlus buf fuel (a + 1)
 
 /-- `MHD_str_pct_decode_in_place_strict_` on the string at `a`; `r`, `w` are the
-    read and write cursors.  A broken encoding returns length 0 and leaves the
-    string as it is at that moment (no terminator is written) — as the C code. -/
+    read and write cursors.  A broken encoding truncates the string (`str[0] = 0`) and
+    returns length 0 (the code as repaired by "fix: MHD_str_pct_decode_in_place_strict_:
+    truncate the string on broken encoding as documented"). -/
 def pctStrict (buf : Bytes) (a : Nat) : Nat → Nat → Nat → Except Fault (Bytes × Nat)
   | 0, r, _ => .error (.read 42 (a + r))
   | fuel + 1, r, w =>
+    let broken : Except Fault (Bytes × Nat) :=
+      if a < buf.size then .ok (buf.setIfInBounds a 0, 0) else .error (.write 57 a)
     match buf[a + r]? with
     | none => .error (.read 42 (a + r))
     | some chr =>
@@ -52,19 +55,19 @@ def pctStrict (buf : Bytes) (a : Nat) : Nat → Nat → Nat → Except Fault (By
         match buf[a + r + 1]? with
         | none => .error (.read 44 (a + r + 1))
         | some d1 =>
-          if d1 == 0 then .ok (buf, 0)
+          if d1 == 0 then broken
           else
             match buf[a + r + 2]? with
             | none => .error (.read 45 (a + r + 2))
             | some d2 =>
-              if d2 == 0 then .ok (buf, 0)
+              if d2 == 0 then broken
               else
                 match xdigit d1, xdigit d2 with
                 | some h, some l =>
                   if a + w < buf.size then
                     pctStrict (buf.setIfInBounds (a + w) (h * 16 + l)) a fuel (r + 3) (w + 1)
                   else .error (.write 46 (a + w))
-                | _, _ => .ok (buf, 0)
+                | _, _ => broken
       else
         if a + w < buf.size then pctStrict (buf.setIfInBounds (a + w) chr) a fuel (r + 1) (w + 1)
         else .error (.write 47 (a + w))
@@ -102,10 +105,11 @@ def pctLenient (buf : Bytes) (a : Nat) : Nat → Nat → Nat → Except Fault (B
                     pctLenient (buf.setIfInBounds (a + w) (h * 16 + l)) a fuel (r + 3) (w + 1)
                   else .error (.write 54 (a + w))
                 | _, _ =>
-                  if a + w + 2 < buf.size then
-                    pctLenient (((buf.setIfInBounds (a + w) chr).setIfInBounds (a + w + 1) d1).setIfInBounds
-                                  (a + w + 2) d2) a fuel (r + 3) (w + 3)
-                  else .error (.write 55 (a + w + 2))
+                  -- copy the '%' as is; "the next two chars are processed again as they may
+                  -- start a valid sequence" (r -= 2)
+                  if a + w < buf.size then
+                    pctLenient (buf.setIfInBounds (a + w) chr) a fuel (r + 1) (w + 1)
+                  else .error (.write 55 (a + w))
       else
         if a + w < buf.size then pctLenient (buf.setIfInBounds (a + w) chr) a fuel (r + 1) (w + 1)
         else .error (.write 56 (a + w))
